@@ -2,6 +2,7 @@ import Jrpc.Codec
 import Jrpc.Auth
 import Jrpc.Backoff
 import Jrpc.Frames
+import Jrpc.Errors
 /-
   Jrpc.Ops — dispatch of driver operations onto the model's executable definitions.
 -/
@@ -112,6 +113,64 @@ def opFrames (j : Json) : R Json := do
       ("closed", Json.arr (s.closedChans.map Json.str).toArray),
       ("mailbox", Json.arr (s.mailbox.map nidJ).toArray)]
 
+def optStr (j : Json) (k : String) : Option String :=
+  match fld j k with
+  | .ok (Json.str s) => some s
+  | _ => none
+
+def errTy (j : Json) : R Errors.Ty := do
+  return { name := ← str j "name", ptr := ← bool j "ptr" }
+
+def registry (j : Json) (k : String) : R (Option Errors.Registry) := do
+  match fld j k with
+  | .error _ => return none
+  | .ok Json.null => return none
+  | .ok v =>
+    -- a list of [code, ty] in registration order, on top of NewErrors()
+    let mut r := Errors.newErrors
+    for e in (← v.getArr?).toList do
+      r := r.register (← int e "code") (← errTy (← fld e "ty"))
+    return some r
+
+def wireErrJ (w : Errors.WireErr) : Json :=
+  Json.mkObj [("code", Json.num (JsonNumber.fromInt w.code)), ("msg", w.msg),
+              ("meta", optJ Json.str w.metaJ), ("data", optJ Json.str w.data)]
+
+def capOf : String → R Errors.Cap
+  | "plain" => pure .plain | "marshalable" => pure .marshalable | "codec" => pure .codec
+  | s => throw s!"bad cap {s}"
+
+/-- op "errors": handler outcome ↦ what the caller sees.  The application's methods are tables
+    computed by the harness from the real error types (the model never looks inside them). -/
+def opErrors (j : Json) : R Json := do
+  let aj ← fld j "app"
+  let caps ← (arrD aj "cap").mapM (fun e => do
+    return ((← errTy (← fld e "ty")), ← capOf (← str e "cap")))
+  let unm ← (arrD aj "unmarshal").mapM (fun e => do return ((← str e "name"), optStr e "result"))
+  let frw ← (arrD aj "fromWire").mapM (fun e => do return ((← str e "name"), optStr e "result"))
+  let toWire : Option Errors.WireErr ←
+    match fld aj "toWire" with
+    | .ok Json.null => pure none
+    | .error _ => pure none
+    | .ok w => pure (some { code := ← int w "code", msg := ← str w "msg", data := optStr w "data" })
+  let app : Errors.App := {
+    cap := fun t => (caps.lookup t).getD .plain
+    marshal := fun _ => optStr aj "marshal"
+    unmarshal := fun t _ => (unm.lookup t.name).join
+    toWire := fun _ => toWire
+    fromWire := fun t _ => (frw.lookup t.name).join }
+  let herr : Option Errors.ErrVal ←
+    match fld j "err" with
+    | .ok Json.null => pure none
+    | .error _ => pure none
+    | .ok e => pure (some { ty := ← errTy (← fld e "ty"), msg := ← str e "msg", content := ← str e "content" })
+  let (v, ce) := Errors.endToEnd app (← registry j "sreg") (← registry j "creg") herr (← str j "hval")
+  let cej := match ce with
+    | .none => Json.null
+    | .generic w => Json.mkObj [("k", "generic"), ("code", Json.num (JsonNumber.fromInt w.code)), ("msg", w.msg)]
+    | .typed t c => Json.mkObj [("k", "typed"), ("name", t.name), ("ptr", t.ptr), ("content", c)]
+  return Json.mkObj [("val", optJ Json.str v), ("err", cej)]
+
 def run (j : Json) : R Json := do
   match (← str j "op") with
   | "http" => opHttp j
@@ -120,6 +179,7 @@ def run (j : Json) : R Json := do
   | "perm" => opPerm j
   | "backoff" => opBackoff j
   | "frames" => opFrames j
+  | "errors" => opErrors j
   | "authhttp" => opAuthHttp j
   | op => throw s!"unknown op {op}"
 
